@@ -327,6 +327,7 @@ pub fn gen_sub(prop: &str, tier: &str, seed: u64) -> Out {
                     Number::Int64(-1), Number::Float64(-1.0), Number::Float64(0.5), Number::Float64(-0.5), Number::Float64(1.5), Number::Int64(2), Number::UInt64(2),
                     Number::Int64(i64::MIN), Number::Int64(i64::MAX), Number::UInt64(i64::MAX as u64), Number::UInt64(i64::MAX as u64 + 1), Number::UInt64(u64::MAX),
                     Number::Float64(9223372036854775808.0), Number::Float64(-9223372036854775808.0), Number::Float64(18446744073709551616.0), Number::Float64(9007199254740992.0),
+                    Number::Float64(1.0e19), Number::Float64(18446744073709549568.0), Number::UInt64(10000000000000000000), Number::UInt64(10000000000000000001),
                     Number::UInt64(9007199254740992), Number::UInt64(9007199254740993), Number::Int64(-9007199254740993), Number::Float64(f64::NAN), Number::Float64(f64::INFINITY),
                     Number::Float64(f64::NEG_INFINITY), Number::Float64(f64::MIN_POSITIVE), Number::Float64(5e-324), Number::Float64(-5e-324), Number::Float64(f64::MAX), Number::Float64(f64::MIN)];
                 for a in &core { for b in &core {
@@ -747,7 +748,10 @@ pub fn gen_sub(prop: &str, tier: &str, seed: u64) -> Out {
             if prop != "C14" {
                 let nums: Vec<Number> = vec![Number::UInt64(0), Number::Float64(0.0), Number::Float64(-0.0), Number::UInt64(1), Number::Float64(1.0), Number::Int64(-1), Number::Float64(-1.0),
                     Number::Float64(f64::NAN), Number::Float64(f64::from_bits(0xfff8000000000000)), Number::Float64(f64::INFINITY), Number::Float64(f64::NEG_INFINITY),
-                    Number::UInt64(9007199254740992), Number::UInt64(9007199254740993), Number::Float64(9007199254740992.0), Number::Int64(i64::MIN), Number::UInt64(u64::MAX), Number::Float64(18446744073709551616.0)];
+                    Number::UInt64(9007199254740992), Number::UInt64(9007199254740993), Number::Float64(9007199254740992.0), Number::Int64(i64::MIN), Number::UInt64(u64::MAX), Number::Float64(18446744073709551616.0),
+                    // the binade [2^63, 2^64): integers and doubles interleave there (u64 beyond i64::MAX, -2^63)
+                    Number::Float64(9223372036854775808.0), Number::Float64(-9223372036854775808.0), Number::Float64(1.0e19), Number::Float64(18446744073709549568.0),
+                    Number::UInt64(9223372036854775808), Number::UInt64(9223372036854775809), Number::Int64(i64::MAX), Number::UInt64(10000000000000000000), Number::UInt64(10000000000000000001)];
                 for x in &nums { for y in &nums {
                     for wrap in 0..3 {
                         let w = |n: &Number| -> Value<'static> { let v = Value::Number(n.clone()); match wrap { 0 => v, 1 => Value::Array(vec![Value::Null, v]), _ => { let mut m = std::collections::BTreeMap::new(); m.insert("k".to_string(), v); m.insert("z".to_string(), Value::Bool(true)); Value::Object(m) } } };
